@@ -143,10 +143,10 @@ def prepare(ch):
                 for p_ in spec.srcs:
                     p_.items = sorted([i for i in p_.items if type(i).__name__ == "Item"], key=lambda i: i.key)
                 prep.sort_underlying = True
-            if any(f is not None for f in spec.fns) and ch.chance(1, 6):
+            if any(f is not None for f in spec.fns) and ch.chance(1, 3):
                 # the tool's callable fails (with a TypeError) at one of its first calls: the error is handled inside the
                 # block, and the handle goes on from where the stdlib tool would have left a shared iterator
-                spec.p["c08_fault"] = ch.draw(3)
+                spec.p["c08_fault"] = ch.weighted([3, 1, 1])
             # the handle takes the place of one of the tool's iterable arguments (not always the first)
             # (drivers such as groupby's deliver several events per item: more steps are needed to get anywhere)
             take = ch.draw(5) if ch.chance(2, 3) else ch.between(5, 10)
